@@ -7,6 +7,8 @@ import QSP.Model.Hist
 import QSP.Model.Cheb
 import QSP.Model.Ball
 import QSP.Model.Validators
+import QSP.Model.SymQSP
+import QSP.Model.Jacobian
 open QSP QSP.Proto
 
 def bad : String := "bad-op"
@@ -187,6 +189,32 @@ def handle (toks : List String) : String :=
     match parseRatList c, parseRat x with
     | some c, some x => showRat (chebEval c x)
     | _, _ => bad
+  -- symmetric QSP ------------------------------------------------------------------------
+  | "sym.hist" :: par :: lists =>
+    -- parity `-` = None; first list = constructor argument, the others = update history
+    let p : Option Int := if par = "-" then none else par.toInt?
+    match lists.mapM parseRatList with
+    | some (r0 :: hist) =>
+      let s := hist.foldl Proto.update (Proto.init r0 p)
+      match s.full, s.deg with
+      | some f, some d => s!"{showRatList f} {d} {showRatList s.reduced}"
+      | _, _ => s!"none none {showRatList s.reduced}"
+    | _ => bad
+  | ["sym.jac", par, bits, r] =>
+    match par.toNat?, bits.toNat?, parseRatList r with
+    | some p, some b, some r =>
+      match jacSpec p b r with
+      | .ok (f, cols) => s!"{showRatList f} {" ".intercalate (cols.map showRatList)}"
+      | .error e => showErr e
+    | _, _, _ => bad
+  | ["newton.exit", crit, maxiter, errs] =>
+    match parseRat crit, parseRat maxiter, parseRatList errs with
+    | some c, some m, some es =>
+      match newtonExit c m es with
+      | some (k, e, .maxiter) => s!"{k} {showRat e} maxiter"
+      | some (k, e, .crit) => s!"{k} {showRat e} crit"
+      | none => "none"
+    | _, _, _ => bad
   -- sup-norm certificate -----------------------------------------------------------------
   | ["sup.real", bnd, depth, d, l] =>
     match parseRat bnd, depth.toNat?, d.toInt?, parseRatList l with
